@@ -1,7 +1,8 @@
 (** Which header fields the scan of qp_header records: the LAST field with the name at the start of a
     line of the header, and none is overlooked. *)
 From Qv Require Import Common.Bytes Gen.GenQrdata Model.Mime Model.QrData Proofs.QrMemLemmas
-  Proofs.QrNeedRecodeProofs Proofs.QrPlainSpecProofs Proofs.QrPhaseProofs Proofs.MimeTotalProofs Proofs.QrHeaderTotalProofs Proofs.QrScanProofs.
+  Proofs.QrNeedRecodeProofs Proofs.QrPlainSpecProofs Proofs.QrPhaseProofs Proofs.MimeTotalProofs Proofs.QrHeaderTotalProofs Proofs.QrScanProofs
+  Proofs.QrEntityProofs.
 Require Import Lia.
 
 (* ------------------------------------------------------------------ getfieldlen: inside a field *)
@@ -155,7 +156,7 @@ Proof.
   unfold to_lower, is_upper. destruct (N.leb 65 c && N.leb c 90) eqn:E; intros H; [right; lia|left; exact H].
 Qed.
 
-Definition CT_LOWER : bytes := map to_lower (67%N :: CT_TAIL).   (* "content-type:" *)
+
 
 (* ------------------------------------------------------------------ the scan overlooks nothing *)
 Section Complete.
@@ -375,3 +376,112 @@ Proof.
 Qed.
 
 End Complete.
+
+(* ------------------------------------------------------------------ the header analysis of qp_header *)
+Theorem header_fields (m : bytes) (b len : nat) : b + len <= length m -> 1 <= len ->
+  forall h ct ce, qh_view m b len = Ok (h, ct, ce) -> seen m b len h ct ce.
+Proof.
+  intros Hw Hl h ct ce Ev.
+  destruct (qh_front_cases m b len Hw Hl (fun h ct ce => Ok (h, ct, ce))
+              (fun v => let '(h, ct, ce) := v in seen m b len h ct ce)) as (v & E & HQ).
+  - intros c0 r h0 Ew He Hh Hhl Hsk Hends. eexists. split; [reflexivity|]. cbv beta iota.
+    intros j Hj _.
+    assert (Hj0 : is_eol (at_ m (b + j)) = true).
+    { assert (Ha : at_ m (b + j) = nth j (sub m b len) 0%N) by (unfold at_; rewrite nth_sub by lia; reflexivity).
+      rewrite Ha, Ew. destruct (Nat.eq_dec j 0) as [->|]; [exact He|].
+      assert (j = 1 /\ h0 = 2) as (-> & ->) by lia. rewrite Ew in Hends.
+      destruct r as [|c1 r1]; [cbn in Hends; pose proof (sub_length m b len Hw) as Hlen; rewrite Ew in Hlen; cbn in Hlen; lia|].
+      cbn [firstn ends_eol] in Hends. exact Hends. }
+    destruct (eol_not_c _ Hj0). destruct (not_named_char m b len Hw j); [assumption|assumption|].
+    split; intros F; contradiction.
+  - intros hd o' ct' ce' Esc _ _ _ _ _ _. eexists. split; [reflexivity|]. cbv beta iota.
+    destruct (qh_scan_complete m b len Hw _ 0 (0, 0) (0, 0) hd o' ct' ce' Esc) as (A & B).
+    { split; [intros F; cbn in F; contradiction|]. split; [intros F; cbn in F; contradiction|]. intros j Hj. lia. }
+    destruct (Nat.eqb_spec hd 0) as [Hz|Hnz]; [apply B; exact Hz|apply A; exact Hnz].
+  - unfold qh_view in Ev. rewrite Ev in E. inversion E; subst v. exact HQ.
+Qed.
+
+(** a window that ends with a line end has no unterminated field *)
+Lemma no_unterm m b len N : b + len <= length m -> ends_eol (sub m b len) = true -> ~ unterm m b len N.
+Proof.
+  intros Hw He (j & (Hfit & _) & Hg).
+  assert (Hlj : 1 <= len - j).
+  { destruct (Nat.eq_dec (len - j) 0) as [Hz|]; [|lia]. exfalso. rewrite Hz in Hg. vm_compute in Hg. discriminate. }
+  unfold getfieldlen in Hg. pose proof (gfl_zero m (b + j) (len - j) ltac:(lia) _ 0 (len - j) Hg ltac:(lia) Hlj) as Hz.
+  set (w := sub m b len) in *. assert (Hwl : length w = len) by (apply sub_length; exact Hw).
+  rewrite ends_eol_last in He by (intros Ee; rewrite Ee in Hwl; cbn in Hwl; lia).
+  rewrite Hwl in He. unfold w in He. rewrite nth_sub in He by lia. unfold at_ in Hz.
+  replace (b + j + (len - j) - 1) with (b + (len - 1)) in Hz by lia. rewrite Hz in He. discriminate.
+Qed.
+
+(** everything about the header analysis in one place *)
+Theorem header_view_spec (m : bytes) (b len : nat) : b + len <= length m -> 1 <= len ->
+  forall h ct ce, qh_view m b len = Ok (h, ct, ce) ->
+  1 <= h <= len /\ hdr_pos m b len h /\
+  fld_inv2 m b len ct /\ ct_named m b len ct /\ (snd ct <> 0 -> fst ct <= h) /\
+  fld_inv2 m b len ce /\ cte_named m b len ce /\ (snd ce <> 0 -> fst ce <= h) /\
+  seen m b len h ct ce.
+Proof.
+  intros Hw Hl h ct ce Ev. pose proof (header_fields m b len Hw Hl h ct ce Ev) as Hseen.
+  set (w := sub m b len). assert (Hwl : length w = len) by (apply sub_length; exact Hw).
+  destruct (qh_front_cases m b len Hw Hl (fun h ct ce => Ok (h, ct, ce))
+              (fun v => let '(h, ct, ce) := v in
+                 1 <= h <= len /\ hdr_pos m b len h /\
+                 fld_inv2 m b len ct /\ ct_named m b len ct /\ (snd ct <> 0 -> fst ct <= h) /\
+                 fld_inv2 m b len ce /\ cte_named m b len ce /\ (snd ce <> 0 -> fst ce <= h))) as (v & E & HQ).
+  - intros c0 r h0 Ew He Hh Hhl Hsk Hends. eexists. split; [reflexivity|]. cbv beta iota.
+    assert (Z : fld_inv2 m b len (0, 0)) by (split; [left; reflexivity|intros F; cbn in F; contradiction]).
+    split; [lia|]. split; [right; exists c0, r; auto|].
+    assert (Zn : forall P : Prop, snd (0, 0) <> 0 -> P) by (intros P F; cbn in F; contradiction).
+    split; [exact Z|]. split; [intros F; apply Zn; exact F|]. split; [apply Zn|]. split; [exact Z|]. split; [intros F; apply Zn; exact F|apply Zn].
+  - intros hd o' ct' ce' Esc Hc0 Hpost Fct Fce _ Hnamed. eexists. split; [reflexivity|]. cbv beta iota.
+    destruct Hpost as (Hhd & Hnz & Hz). fold w in Hnz, Hz, Hc0.
+    set (h1 := if Nat.eqb hd 0 then len else hd).
+    assert (HhP : h1 = hpos 0 w).
+    { unfold h1. destruct (Nat.eqb_spec hd 0) as [E0|E0]; [symmetry; apply Hz; exact E0|apply Hnz; exact E0]. }
+    assert (HP1 : 1 <= hpos 0 w).
+    { destruct w as [|c0 r] eqn:Ew; [cbn in Hwl; lia|]. cbn [nth] in Hc0. rewrite (hpos_noneol c0 r 0 Hc0). lia. }
+    assert (HPl : hpos 0 w <= len) by (rewrite <- Hwl; apply hpos_le).
+    assert (Hmono : hd <> 0 -> fle hd ct' /\ fle hd ce').
+    { intros Hn. apply (qh_scan_mono m b len _ 0 (0, 0) (0, 0) hd o' ct' ce' Esc Hn); intros F; cbn in F; contradiction. }
+    assert (Hle : forall f, fld_inv2 m b len f -> (hd <> 0 -> fle hd f) -> snd f <> 0 -> fst f <= h1).
+    { intros f (Fi & _) Hm Hn. destruct Fi as [Hz0|(_ & Hel & _)]; [contradiction|].
+      unfold h1. destruct (Nat.eqb_spec hd 0) as [E0|E0]; [lia|]. apply (Hm E0). exact Hn. }
+    split; [lia|]. split; [left; exact HhP|]. split; [exact Fct|]. split.
+    { apply (qh_scan_ctn m b len _ 0 (0, 0) (0, 0) hd o' ct' ce' Esc). intros F. cbn in F. contradiction. }
+    split; [apply Hle; [exact Fct|intros Hn; apply (Hmono Hn)]|]. split; [exact Fce|]. split; [exact Hnamed|].
+    apply Hle; [exact Fce|intros Hn; apply (Hmono Hn)].
+  - unfold qh_view in Ev. rewrite Ev in E. inversion E; subst v.
+    destruct HQ as (A & B & C & D & F & G & H & I).
+    split; [exact A|]. split; [exact B|]. split; [exact C|]. split; [exact D|]. split; [exact F|]. split; [exact G|]. split; [exact H|]. split; [exact I|exact Hseen].
+Qed.
+
+(** the same, spelled out on the octets *)
+Theorem header_fields_plain (m : bytes) (b len h : nat) (ct ce : nat * nat) :
+  b + len <= length m -> 1 <= len -> qh_view m b len = Ok (h, ct, ce) ->
+  let lst j := j = 0 \/ is_eol (nth (b + j - 1) m 0%N) = true in
+  let nam (N : bytes) j := j + length N <= len /\ map to_lower (sub m (b + j) (length N)) = N in
+  1 <= h <= len /\
+  (h = hpos 0 (sub m b len) \/
+   exists c0 r, sub m b len = c0 :: r /\ is_eol c0 = true /\ skipn h (sub m b len) = after_eol c0 r) /\
+  (snd ct <> 0 -> lst (fst ct) /\ map to_lower (sub m (b + fst ct) (length CT_LOWER)) = CT_LOWER /\ fst ct <= h /\
+                  fst ct + snd ct <= len /\ getfieldlen m (b + fst ct) (len - fst ct) = Ok (snd ct)) /\
+  (snd ce <> 0 -> lst (fst ce) /\ map to_lower (sub m (b + fst ce) (length CTE_LOWER)) = CTE_LOWER /\ fst ce <= h /\
+                  fst ce + snd ce <= len /\ getfieldlen m (b + fst ce) (len - fst ce) = Ok (snd ce)) /\
+  (ends_eol (sub m b len) = true -> forall j, j < h -> lst j ->
+     (nam CT_LOWER j -> snd ct <> 0 /\ j <= fst ct) /\ (nam CTE_LOWER j -> snd ce <> 0 /\ j <= fst ce)).
+Proof.
+  intros Hw Hl Ev lst nam.
+  destruct (header_view_spec m b len Hw Hl h ct ce Ev) as (Hh & Hpos & Fct & Nct & Lct & Fce & Nce & Lce & Hseen).
+  assert (Fld : forall f, fld_inv2 m b len f -> snd f <> 0 -> lst (fst f) /\ fst f + snd f <= len).
+  { intros f (Fi & F2) Hn. destruct (F2 Hn) as (Hls & _). destruct Fi as [Hz|(_ & Hle & _)]; [contradiction|].
+    split; [|exact Hle]. destruct Hls as [H0|He]; [left; exact H0|].
+    destruct (Nat.eq_dec (fst f) 0) as [H0|Hn0]; [left; exact H0|]. right.
+    rewrite nth_sub in He by lia. replace (b + fst f - 1) with (b + (fst f - 1)) by lia. exact He. }
+  split; [exact Hh|]. split; [exact Hpos|]. split; [|split].
+  - intros Hn. destruct (Fld ct Fct Hn) as (A & B). destruct (Nct Hn) as (C & D). auto.
+  - intros Hn. destruct (Fld ce Fce Hn) as (A & B). destruct (Nce Hn) as (C & D). auto.
+  - intros He j Hj Hls. destruct (Hseen j Hj Hls) as (A & B). split; intros Hnm.
+    + destruct (A Hnm) as [R|U]; [exact R|]. exfalso. apply (no_unterm m b len CT_LOWER Hw He U).
+    + destruct (B Hnm) as [R|U]; [exact R|]. exfalso. apply (no_unterm m b len CTE_LOWER Hw He U).
+Qed.
